@@ -421,7 +421,7 @@ calls:
     payload: '{"token": "{{.request.c1.preprocessor.u}}", "user_id": 5, "item_id": 7}'
 scenarios:
   - name: s1
-    requests: [c1, c2]
+    requests: [c1, sleep(300), c2]
 `
 
 // c20failYAML: the second call's payload template fails while it is being rendered (an index
@@ -637,6 +637,16 @@ func c20cells(thorough bool) []C20Cell {
 					out = append(out, C20Cell{Mode: "entries", Entries: []Entry{g, b, h}, TimeoutMs: to, Instances: 1, Bound: 1})
 				}
 			}
+		}
+	}
+	// runs of bad entries: the same bad entry twice (and a different one after it) following a good one
+	for gi, g := range good {
+		if !thorough && gi%3 != 0 {
+			continue
+		}
+		for bi, b := range bad {
+			out = append(out, C20Cell{Mode: "entries", Entries: []Entry{g, b, b, g}, TimeoutMs: 2000, Instances: 1})
+			out = append(out, C20Cell{Mode: "entries", Entries: []Entry{g, b, bad[(bi+1)%len(bad)], b}, TimeoutMs: 2000, Instances: 1})
 		}
 	}
 	for _, inst := range []int{1, 2} {
